@@ -106,6 +106,8 @@ def build_operand(o):
     t = o[0]
     if t == "num":
         return o[1]
+    if t == "npnum":
+        return np.float64(o[1])
     if t == "meas":
         return q.Measurement(o[1], o[2], unit=o[3]) if o[3] else q.Measurement(o[1], o[2])
     if t == "list":
@@ -123,6 +125,9 @@ def scalar_at(o, i):
     t = o[0]
     if t == "num":
         return o[1]
+    if t == "npnum":
+        import numpy as np
+        return np.float64(o[1])
     if t == "meas":
         return q.Measurement(o[1], o[2], unit=o[3]) if o[3] else q.Measurement(o[1], o[2])
     if t == "list":
@@ -251,7 +256,7 @@ def c_desc(d):
 
 def c_operand(o, counters):
     t = o[0]
-    if t == "num":
+    if t in ("num", "npnum"):      # a numpy scalar reaches the same element-level calls as a Python number
         return "(KNum {})".format(qlit(Fraction(o[1])))
     if t == "meas":
         counters["meas"] += 1
@@ -313,6 +318,8 @@ def gen_arr(rng, n, dom, unit=None):
 def gen_operand(rng, kind, n, dom):
     if kind == "num":
         return ["num", gen_val(rng, dom)]
+    if kind == "npnum":
+        return ["npnum", float(gen_val(rng, dom))]
     if kind == "meas":
         return ["meas", gen_val(rng, dom), gen_err(rng), rng.choice(UNITS)]
     if kind == "list":
@@ -333,7 +340,7 @@ def grid(rng, draws):
             for op in BINOPS:
                 dom = "pos" if op == "**" else "any"
                 for sl in (True, False):
-                    for kind in KINDS:
+                    for kind in KINDS + ["npnum"]:
                         other = gen_operand(rng, kind, n, "pos" if op in ("**", "/") else dom)
                         cases.append({"kind": "binop", "op": op, "self_left": sl,
                                       "A": gen_arr(rng, n, "pos" if op in ("**", "/") else dom), "other": other})
@@ -395,7 +402,7 @@ def correspondence(ctx):
         res.nontrivial.add(cell + ":n={}".format(len(case.get("A", {}).get("values", [])) or
                                                  operand_len(case.get("arg", case.get("a", ["x"]))) or 1)
                            + (":raises" if exn else ""))
-    res.rule = ("the exhaustive grid: 5 binary operators x both operand orders x 5 operand kinds (number, Measurement, list, "
+    res.rule = ("the exhaustive grid: 5 binary operators x both operand orders x 6 operand kinds (number, numpy scalar, Measurement, list, "
                 "ndarray, MeasurementArray) + unary minus + 19 vectorised math functions x 5 argument kinds + two-argument "
                 "log over 5 x 5 argument kinds, each for lengths 1, 2, 5 with random dyadic contents inside the domains "
                 "(thorough: 40 content draws), plus operands of mismatched length (must raise). Observed: the container "
@@ -496,6 +503,8 @@ def check_case_oracle(case):
     cont = container_of(res)
     has_eva = kind in ("binop", "neg") or any(a[0] == "arr" for a in args)
     has_nd = any(a[0] == "nd" for a in args)
+    if kind == "fn" and case["arg"][0] == "npnum":
+        has_nd = False
     has_list = any(a[0] == "list" for a in args)
     want_cont = "CEva" if has_eva else "CNd" if has_nd else "CList" if has_list else "CScalar"
     if cont != want_cont:
